@@ -323,6 +323,10 @@ func (fc *FnCtx) instr(ins ssa.Instruction) {
 			g.constVal[al] = v
 			if ci, ok := fc.closures[x.Val]; ok {
 				fc.closures[al] = ci
+				if g.constClosure == nil {
+					g.constClosure = map[ssa.Value]*closureInfo{}
+				}
+				g.constClosure[al] = ci
 			}
 		}
 	case *ssa.UnOp:
@@ -393,6 +397,9 @@ func (fc *FnCtx) instr(ins ssa.Instruction) {
 			// a captured write-once variable is the same value inside the closure
 			if cv, ok := g.constVal[b]; ok && i < len(ci.fn.FreeVars) {
 				g.constVal[ci.fn.FreeVars[i]] = cv
+				if cc, ok := g.constClosure[b]; ok {
+					g.constClosure[ci.fn.FreeVars[i]] = cc
+				}
 			}
 		}
 		fc.closures[x] = ci
@@ -548,6 +555,8 @@ func (fc *FnCtx) unop(x *ssa.UnOp) {
 			// write-once local variable (possibly captured by closures): its value, not a heap read
 			fc.vals[x] = Val{t: cv.t, ty: x.Type(), tuple: cv.tuple}
 			if ci, ok := fc.closures[x.X]; ok {
+				fc.closures[x] = ci
+			} else if ci, ok := g.constClosure[x.X]; ok {
 				fc.closures[x] = ci
 			}
 			return
